@@ -6,6 +6,14 @@ from ...arch.arch_info import Endianness
 from . import astnodes as ast
 
 
+def const_div(a, b):
+    """Divide two constants, integer division truncates towards zero."""
+    if isinstance(a, int) and isinstance(b, int):
+        quotient = abs(a) // abs(b)
+        return quotient if (a < 0) == (b < 0) else -quotient
+    return a / b
+
+
 class Context:
     """A context is the space where all modules live in.
 
@@ -111,7 +119,7 @@ class Context:
             ops = {
                 "+": operator.add,
                 "-": operator.sub,
-                "/": operator.truediv,
+                "/": const_div,
                 "*": operator.mul,
                 "%": operator.mod,
             }
